@@ -1,5 +1,12 @@
 """C16 translator: symbol numbers and token sets for Φ16 (raw_query productions / all_tokens_list), the lexer's
-action table and ignore set (pins for the hand model of the token actions), from the live mindsdb lexer/parser."""
+action table and ignore set (pins for the hand model of the token actions), from the live mindsdb lexer/parser.
+
+Round 5 — the path from `tokens_to_string`'s result to the attribute the user reads (grammar action · constructor ·
+whatever runs afterwards): `attr_probe` derives one sentence per embedding production of the live grammar (every production
+with `raw_query` in its right-hand side), finds by sentinel where the text ends up in the tree (stored-text attributes),
+and probes the whole path and every constructor alone with the PAYLOADS (template-like / regex-bait texts inside literals).
+The rows go to `Gen/C16Data.lean` (`glueRows`, `ctorRows`, `ctorForms`, `embedProbed`, `storedAttrs`) and are decided by
+the kernel in Props/C16."""
 import json, os, sys
 from . import tables as T
 
@@ -22,6 +29,86 @@ def assigns_value(func):
     return False
 
 
+def code(s):
+    """a text as one Lean `Nat` literal: UTF-8 bytes in base 256 behind 0x01"""
+    return '0x01' + s.encode('utf-8').hex()
+
+
+def comment_safe(s, n=110):
+    s = s.replace('\n', '⏎').replace('\t', '⇥').replace('\r', '␍').replace('-/', '-∕').replace('/-', '∕-')
+    return s[:n] + ('…' if len(s) > n else '')
+
+
+def attr_data(lexer, parser, pmod, can):
+    """round 5: probe the way from `tokens_to_string`'s result to the attribute (see c16_attr.py) -> (Lean lines, side dict)"""
+    from . import c16_attr as A
+    r = A.attr_probe(lexer, parser, pmod, can)
+    texts, index = [], {}
+
+    def ix(t):
+        if t not in index:
+            index[t] = len(texts)
+            texts.append(t)
+        return index[t]
+    for pl in r['payloads']:
+        ix(pl['text'])
+
+    def group(rows, key, mk):
+        out, order = {}, []
+        for g in rows:
+            k = key(g)
+            if k not in out:
+                out[k] = (mk(g), [])
+                order.append(k)
+            out[k][1].append('(%d,%d)' % (ix(g['passed']), ix(g['stored'])))
+        return ['⟨%s, [%s]⟩' % (out[k][0], ','.join(out[k][1])) for k in order]
+    tmpl_text = {t['name']: t['text'] for t in r['templates']}
+    glue = group(r['glue'], lambda g: (g['template'], g['q'], g['path']),
+                 lambda g: '%s, %d, %d, %s, %s, %s' % (lean_str(tmpl_text[g['template']]), g['prod'], g['q'], lean_str(g['cls']),
+                                                       lean_str(g['attr']), lean_str(g['path'])))
+    ctor = group(r['ctor'], lambda g: (g['cls'], g['attr']),
+                 lambda g: '%s, 0, 0, %s, %s, %s' % (lean_str('%s(%s=·)' % (g['cls'], g['param'])), lean_str(g['cls']),
+                                                     lean_str(g['attr']), lean_str(g['attr'])))
+    forms = []
+    for f in r['forms']:
+        kind, _, detail = f['form'].partition(':')
+        forms.append('(%s, %s, %s, %s, %s)' % tuple(lean_str(x) for x in (f['cls'], f['attr'], f['param'], kind, detail)))
+    out = ['/-! ## round 5: from the result of `tokens_to_string` to the attribute the user reads (probed, see c16_attr.py) -/',
+           '/-- the texts of the probe rows, each as one number (UTF-8 bytes, base 256, behind 0x01); the first `nPayloads` are',
+           'the payloads (template-like / regex-bait contents in every literal kind):']
+    out += ['  %d %s: %s' % (i, pl['name'], comment_safe(pl['text'])) for i, pl in enumerate(r['payloads'])]
+    out += ['  %d (read back, differs from what was passed): %s' % (i, comment_safe(t)) for i, t in enumerate(texts)
+            if i >= len(r['payloads'])]
+    out += ['-/',
+            'def texts : List Nat := %s' % T.lean_list(code(t) for t in texts),
+            'def nPayloads : Nat := %d' % len(r['payloads']),
+            'def payloadNames : List String := %s' % T.lean_list(lean_str(pl['name']) for pl in r['payloads']),
+            '/-- payloads that are inner texts the lexer accepts and `tokens_to_string` reproduces character by character -/',
+            'def payloadsPlain : List Bool := %s' % T.lean_list('true' if pl['plain'] else 'false' for pl in r['payloads']),
+            '/-- the whole way: a sentence of the embedding production parsed with `tokens_to_string` replaced by a function that',
+            'returns the payload; read at the discovered access path -/',
+            'def glueRows : List Probe := %s' % T.lean_list(glue),
+            '/-- the constructor alone -/',
+            'def ctorRows : List Probe := %s' % T.lean_list(ctor),
+            '/-- (class, attribute, parameter, kind, detail) of the assignment to the attribute in `__init__` -/',
+            'def ctorForms : List (String × String × String × String × String) := %s' % T.lean_list(forms),
+            '/-- (class, attribute) pairs in which the text of an embedded query was found -/',
+            'def storedAttrs : List (String × String) := %s' % T.lean_list(
+                '(%s, %s)' % (lean_str(c), lean_str(a)) for c, a in r['attrs']),
+            '/-- embedding productions a probed sentence was seen to reduce, with every embedded query found in the tree -/',
+            'def embedProbed : List Nat := %s' % T.lean_list(map(str, r['probed'])),
+            '/-- what the translator could not do (no sentence for a production, text not found in the tree, …) -/',
+            'def attrProblems : List String := %s' % T.lean_list(lean_str(x) for x in r['problems'])]
+    bad = [g for g in r['glue'] if g['passed'] != g['stored']]
+    badc = [g for g in r['ctor'] if g['passed'] != g['stored']]
+    side = dict(embed=r['embed'], probed=r['probed'], attrs=r['attrs'], forms=r['forms'], problems=r['problems'],
+                payloads=r['payloads'],
+                templates=[dict(name=t['name'], prod=t['prod'], text=t['text'], nq=t['nq'], good=t.get('good', False),
+                                paths=[[s[0] for s in sl] for sl in t.get('slots', [])]) for t in r['templates']],
+                glue_bad=bad[:40], ctor_bad=badc[:40], n_glue=len(r['glue']), n_ctor=len(r['ctor']))
+    return out, side
+
+
 def main(gen_lean, gen_json):
     lexer, parser = T.load('mindsdb')
     import importlib
@@ -41,8 +128,10 @@ def main(gen_lean, gen_json):
     sample = [tid[t.type] for t in L().tokenize(sample_text)]
     multiword = sorted(k for k, v in rules.items() if k in L.tokens and ('\\s' in v or ' ' in v))
     ns = 'MindsVerif.Gen.C16Data'
+    attr_lines, attr_side = attr_data(lexer, parser, pmod, can)
     out = ['-- GENERATED by tools/extract/x_c16.py from the live mindsdb lexer / parser module. Do not edit.',
-           'import MindsVerif.Model.RawQueryGram', 'import MindsVerif.Model.TokStr', 'namespace %s' % ns, 'open MindsVerif.RawQueryGram',
+           'import MindsVerif.Model.RawQueryGram', 'import MindsVerif.Model.TokStr', 'import MindsVerif.Model.StoredAttr',
+           'set_option maxRecDepth 100000', 'namespace %s' % ns, 'open MindsVerif.RawQueryGram MindsVerif.StoredAttr',
            'def ids : Ids where',
            '  rq := %d' % nid['raw_query'], '  lparen := %d' % tid['LPAREN'], '  rparen := %d' % tid['RPAREN'],
            '  nTerms := %d' % len(can['terms']),
@@ -62,10 +151,12 @@ def main(gen_lean, gen_json):
            '/-- `Lexer._ignored_tokens` and `Lexer.ignore` -/',
            'def ignoredTokens : List String := %s' % T.lean_list(lean_str(x) for x in ignored),
            'def ignoreChars : String := %s' % lean_str(L.ignore),
-           'def reNewline : String := %s' % lean_str(rules.get('ignore_newline', '')),
+           'def reNewline : String := %s' % lean_str(rules.get('ignore_newline', ''))] + attr_lines + [
            'end %s' % ns]
     T.write_if_changed(os.path.join(gen_lean, 'C16Data.lean'), '\n'.join(out) + '\n')
     side = dict(tid=names, funcs=funcs, rewriting=rewriting, ignored=ignored, ignore=L.ignore, n_all=len(all_tokens),
-                multiword=multiword, multiword_re={k: rules[k] for k in multiword})
+                multiword=multiword, multiword_re={k: rules[k] for k in multiword}, attr=attr_side)
     T.write_if_changed(os.path.join(gen_json, 'c16.json'), json.dumps(side, sort_keys=True))
-    return {'c16': dict(all_tokens=len(all_tokens), lex_tokens=len(lex_tokens), funcs=funcs)}
+    return {'c16': dict(all_tokens=len(all_tokens), lex_tokens=len(lex_tokens), funcs=funcs,
+                        embed_productions=len(attr_side['embed']), probed=len(attr_side['probed']), glue_rows=attr_side['n_glue'],
+                        ctor_rows=attr_side['n_ctor'], glue_bad=len(attr_side['glue_bad']), ctor_bad=len(attr_side['ctor_bad']))}
